@@ -50,21 +50,25 @@ var scenarios = []scenario{
 		"b": {rec("b", 0, 3, keys[0]), rec("b", 1, 0), rec("b", 2, 1, keys[1])}}, []string{"a", "b"}},
 	{"one split, four records on two operators", map[string][]srh.Record{
 		"a": {rec("a", 0, 2, keys[1]), rec("a", 1, 2, keys[0]), rec("a", 2, 0, keys[1]), rec("a", 3, 3, keys[0], keys[2])}}, []string{"a"}},
+	{"one split, five records of one key", map[string][]srh.Record{
+		"a": {rec("a", 0, 1, keys[0]), rec("a", 1, 2, keys[0]), rec("a", 2, 3, keys[0]), rec("a", 3, 4, keys[0]), rec("a", 4, 5, keys[0])}}, []string{"a"}},
 }
 
 type params struct {
 	oracle   string // "C04", "C11", "C16"
 	focused  bool
+	slowOp   bool // operators take longer than the batch time-out for every batch
 	thorough bool
 }
 
 func rule(what string) string {
-	return "a real SourceRunner (reader loop, asynchronous KeyEventBatch with latency through the real ReorderFetcher, per-operator batching, watermark ticker and batch time-outs on virtual time) with a harness reader over scenarios of 1-2 splits and 3-5 records (out-of-order timestamps, records with 0-2 keyed events, a key shared by two splits), read size 1-2, 1-2 recording operators with back-pressure, MaxSize 1-2, MaxDelay 0/10ms, a checkpoint barrier requested after the first or second read (racing with everything else) or none; every schedule within the delay bound (an early timer expiry costs one). " + what
+	return "a real SourceRunner (reader loop, asynchronous KeyEventBatch with latency through the real ReorderFetcher, per-operator batching, watermark ticker and batch time-outs on virtual time) with a harness reader over scenarios of 1-2 splits and 3-5 records (out-of-order timestamps, records with 0-2 keyed events, a key shared by two splits), read size 1-2, 1-2 recording operators with back-pressure (a separate part gives every operator call a virtual latency of 15 ms, longer than the batch time-out), MaxSize 1-2, MaxDelay 0/10ms, a checkpoint barrier requested after the first or second read (racing with everything else) or none; every schedule within the delay bound (an early timer expiry costs one). " + what
 }
 
 func run(k *report.Check, oracle string) {
 	k.Budget(140, 1500)
 	bound := k.Pick(1, 2)
+	k.ExploreSched(fmt.Sprintf("runner/slow-operator,delays<=%d", bound), mc.Config{Bound: bound, Deadline: k.Within(0.25)}, params{oracle: oracle, slowOp: true, thorough: k.Thorough()}, body)
 	k.ExploreSched(fmt.Sprintf("runner/all-configs,delays<=%d", bound), mc.Config{Bound: bound}, params{oracle: oracle, thorough: k.Thorough()}, body)
 	k.ExploreSched(fmt.Sprintf("runner/focused,delays<=%d", bound+1), mc.Config{Bound: bound + 1}, params{oracle: oracle, focused: true, thorough: k.Thorough()}, body)
 }
@@ -78,29 +82,40 @@ func Run04(k *report.Check) {
 func Run11(k *report.Check) {
 	k.Rule = rule("C11 oracle, source-runner part: the k-th watermark carries the same value in every operator stream, values do not decrease, and each equals the largest timestamp among the keyed events that precede it in the union of the streams minus one nanosecond (before any event: the zero time minus one nanosecond). The operator part (minimum over upstreams) is the second group of parts. non-trivial = distinct (configuration, watermark value sequences)")
 	k.Assumptions = []string{"as C04"}
+	k.Budget(140, 1500)
+	operatorPart(k) // cheap parts first: a loaded machine must not starve them
 	run(k, "C11")
-	operatorPart(k)
 }
 
 func Run16(k *report.Check) {
 	k.Rule = rule("C16 oracle, barrier-cut part: the split positions reported for checkpoint N put every record whose keyed events precede barrier N in some operator stream below the position and every record whose events follow it at or above. Split assignment parts are listed separately. non-trivial = distinct (configuration, reported positions, streams)")
 	k.Assumptions = []string{"records without keyed events are invisible to this oracle"}
+	k.Budget(140, 1500)
+	splitterParts(k) // cheap parts first: a loaded machine must not starve them
 	run(k, "C16")
-	splitterParts(k)
 }
 
 func body(c *mc.Ctx) {
 	p := c.Param.(params)
 	var sc scenario
 	cfg := &srh.Config{KeyGroups: keyGroups}
-	if p.focused {
+	if p.slowOp {
+		sc = scenarios[2+c.Choose(2)]
+		cfg.ReadSize = 1 + c.Choose(2)
+		cfg.Operators = 1
+		cfg.Batching = batching.EventBatcherParams{MaxSize: 2, MaxDelay: 10 * time.Millisecond}
+		cfg.OpLatency = 15 * time.Millisecond
+		if b := c.Choose(4); b > 0 {
+			cfg.Barriers, cfg.BarrierAfterReads = []uint64{1}, []int{b}
+		}
+	} else if p.focused {
 		sc = scenarios[c.Choose(2)]
 		cfg.ReadSize = 1
 		cfg.Operators = 2
 		cfg.Batching = batching.EventBatcherParams{MaxSize: 2, MaxDelay: 10 * time.Millisecond}
 		cfg.Barriers, cfg.BarrierAfterReads = []uint64{1}, []int{1 + c.Choose(2)}
 	} else {
-		sc = scenarios[c.Choose(len(scenarios))]
+		sc = scenarios[c.Choose(3)]
 		cfg.ReadSize = 1 + c.Choose(2)
 		cfg.Operators = 1 + c.Choose(2)
 		cfg.Batching = batching.EventBatcherParams{MaxSize: 1 + c.Choose(2), MaxDelay: []time.Duration{10 * time.Millisecond, 0}[c.Choose(2)]}
